@@ -259,7 +259,13 @@ impl Sandbox {
             }
             match &f.kind {
                 Kind::File => {
-                    std::fs::write(&p, &f.bytes.0)?;
+                    // `@ROOT` inside file contents (program files naming absolute paths) is
+                    // replaced like in argv; `snapshot` reverses it
+                    if contains(&f.bytes.0, ROOT_TOKEN.as_bytes()) {
+                        std::fs::write(&p, replace_bytes(&f.bytes.0, ROOT_TOKEN.as_bytes(), root.as_bytes()))?;
+                    } else {
+                        std::fs::write(&p, &f.bytes.0)?;
+                    }
                     std::fs::set_permissions(&p, std::fs::Permissions::from_mode(f.mode))?;
                 }
                 Kind::Dir => {
@@ -291,6 +297,25 @@ impl Drop for Sandbox {
         let _ = chmod_tree(&self.base);
         let _ = std::fs::remove_dir_all(&self.base);
     }
+}
+
+fn contains(h: &[u8], n: &[u8]) -> bool {
+    h.windows(n.len()).any(|w| w == n)
+}
+
+fn replace_bytes(h: &[u8], from: &[u8], to: &[u8]) -> Vec<u8> {
+    let mut out = Vec::with_capacity(h.len());
+    let mut i = 0;
+    while i < h.len() {
+        if h[i..].starts_with(from) {
+            out.extend_from_slice(to);
+            i += from.len();
+        } else {
+            out.push(h[i]);
+            i += 1;
+        }
+    }
+    out
 }
 
 fn chmod_tree(p: &Path) -> std::io::Result<()> {
